@@ -48,3 +48,31 @@ impl<T> RefCell<T> {
     #[verifier::external_body]
     pub fn new(v: T) -> (r: RefCell<T>) { unimplemented!() }
 }
+pub const PRIVATE_TX_CONTEXT_PREFIX: u8 = 112; // b'p'
+pub uninterp spec fn spec_to_key_u64(prefix: u8, k: Seq<u8>, v: u64) -> Seq<u8>;
+#[verifier::external_body]
+pub fn to_key_u64(prefix: u8, k: &mut Vec<u8>, val: u64) -> (r: Vec<u8>) ensures r@ == spec_to_key_u64(prefix, old(k)@, val) { unimplemented!() }
+// "value v was written under key k in this raw batch" (event predicate: the raw batch is behind a RefCell)
+pub uninterp spec fn was_put<T>(b: &RawBatch, key: Seq<u8>, v: T) -> bool;
+impl<'a> RawBatch<'a> {
+    #[verifier::external_body]
+    pub fn put_ser<T>(&self, key: &[u8], value: &T) -> (r: Result<(), StoreError>)
+        ensures r is Ok ==> was_put(self, key@, *value) { unimplemented!() }
+}
+// `self.db.borrow().as_ref().unwrap()`: the raw batch; panics once the batch has been committed (db taken)
+pub uninterp spec fn refcell_holds<'a>(c: &RefCell<Option<RawBatch<'a>>>) -> bool;
+#[verifier::external_body]
+pub fn vf_batch_db<'b, 'a>(c: &'b RefCell<Option<RawBatch<'a>>>) -> (r: &'b RawBatch<'a>)
+    requires refcell_holds(c) ensures r == vf_db_of(c) { unimplemented!() }
+impl Blake2bResult {
+    #[verifier::external_body]
+    pub fn as_bytes(&self) -> (r: &[u8]) ensures r@ == spec_blake_bytes(*self), r@.len() == 32 { unimplemented!() }
+}
+pub uninterp spec fn spec_blake_bytes(b: Blake2bResult) -> Seq<u8>;
+#[verifier::external_body]
+pub fn vf_tag_blind() -> (r: &'static [u8]) ensures r@ == seq![98u8, 108u8, 105u8, 110u8, 100u8] { unimplemented!() }
+#[verifier::external_body]
+pub fn vf_tag_nonce() -> (r: &'static [u8]) ensures r@ == seq![110u8, 111u8, 110u8, 99u8, 101u8] { unimplemented!() }
+#[verifier::external_body]
+pub fn vf_slice_to_vec_u8(s: &[u8]) -> (r: Vec<u8>) ensures r@ == s@ { unimplemented!() }
+pub uninterp spec fn vf_db_of<'b, 'a>(c: &'b RefCell<Option<RawBatch<'a>>>) -> &'b RawBatch<'a>;
